@@ -208,6 +208,24 @@ def run(ctx):
         spec = gen.rand_tree_spec(rng, rng.choice([1, 2, 3, 4, 5]), max_mult=3)
         dc = build_chain(spec, rng, with_meta=False)
         one(dc.to_dict(), "class", rng.choice(attr_choices))
+    # the same Python objects at several places of one dictionary (a hand-made chain re-using the list of modes of a particle that
+    # occurs twice): the graph is determined by the content of the dictionary, not by the identity of its parts
+    def share(cd, memo):
+        (mother, modes), = cd.items()
+        key = canon_json(modes)
+        if key in memo:
+            return {mother: memo[key]}
+        new = [dict(m, fs=[it if isinstance(it, str) else share(it, memo) for it in m["fs"]]) for m in modes]
+        memo[key] = new
+        return {mother: new}
+
+    pm = [{"bf": 0.98823, "fs": ["gamma", "gamma"], "model": "PHSP", "model_params": ""}, {"bf": 0.01174, "fs": ["e+", "e-", "gamma"], "model": "PI0_DALITZ", "model_params": ""}]
+    one({"D0": [{"bf": 1.0, "fs": ["K-", "pi+", {"pi0": pm}, {"pi0": pm}], "model": "PHSP", "model_params": ""}]}, "shared-objects", {})
+    for k in range(20 if tier == "quick" else 200):
+        spec = gen.rand_tree_spec(rng, rng.choice([2, 3, 4]), max_mult=3)
+        dc = build_chain(spec, rng, with_meta=False)
+        cd = share(dc.to_dict(), {})
+        one(cd, "shared-objects", {})
     # fixed finding F17: names with HTML markup characters (only possible in hand-made chain dictionaries; always piped
     # through dot), alone, among table names, as mother, in nested lines, and as pure entity look-alikes
     special = ["a<b", "x&y", "p>q", "&amp;", "<SUB>", "a&b;c", "<<>>", "K&lt;", "&", "<", "q\"r", "it's", "&#773;"]
